@@ -2,6 +2,12 @@
 """Prints the prompt for a seeded-mutation sub-agent for property <id> (text of the property only)."""
 import json,sys
 pid=sys.argv[1]
+# TAKEN: what earlier seeds of this property need in order to manifest (from seeded/README.md), so that a new author picks another mechanism
+import re
+taken=[]
+for l in open('/verif/seeded/README.md'):
+    m=re.match(r'\| (C\d\d-\d+) \| (C\d\d) \| (.*?) \| ',l)
+    if m and m.group(1).startswith(pid+'-'): taken.append(m.group(3))
 for l in open('/verif/properties.jsonl'):
     p=json.loads(l)
     if p['id']==pid: break
@@ -23,4 +29,4 @@ Deliverables, all in the worktree root /tmp/seed-{pid}:
   - `patch.diff`  : the defect only (a `git diff` of the src/ change, without the demonstration), applicable with `git apply` to the original tree;
   - `demo.diff`   : the demonstration only (a diff that adds the test file / module), applicable with `git apply` to the original tree independently of patch.diff;
   - `SEEDED.md`   : which part of the property the defect breaks, what it needs in order to manifest, why the existing tests do not notice, and the exact commands you ran with their results (with and without the defect).
-Do not commit anything. Leave the worktree with BOTH diffs applied. Keep the change small (a few lines). When done, reply with a 5-line summary.""")
+""" + ("Earlier experiments on this property already used defects that need the following in order to manifest; pick a DIFFERENT mechanism in a DIFFERENT part of the code (something none of these would lead one to look at):\n" + "".join("  - "+t+"\n" for t in taken) if taken else "") + f"""Do not commit anything. Leave the worktree with BOTH diffs applied. Keep the change small (a few lines). When done, reply with a 5-line summary.""")
